@@ -32,7 +32,7 @@ def plan(tier, seed):
 def conclude(agg):
     c = agg['counters']
     return [f'monitor counter {k} is zero' for k in ('files', 'cells_compared_tests', 'cells_compared_responses', 'cells_compared_loc', 'markers_inside', 'markers_adjacent',
-                                                     'markers_at_end', 'loc_sets', 'sa_sets', 'loc_with_clock', 'loc_without_clock', 'inverted_cells', 'multi_chain')
+                                                     'markers_at_end', 'loc_sets', 'sa_sets', 'loc_with_clock', 'loc_without_clock', 'inverted_cells', 'multi_chain', 'loc_capture_only')
             if c.get(k, 0) == 0]
 
 
@@ -105,9 +105,11 @@ def gen_case(rng):
             p['capture'] = {'_pi': pistr(rng.random() < 0.7), '_po': ''.join(rng.choice('LHX') for _ in po_group)}
         else:
             clocked = rng.random() < 0.7
-            p['launch'] = {'_pi': pistr(clocked)}
-            if rng.random() < 0.3:
-                p['launch']['_po'] = ''.join(rng.choice('LHX') for _ in po_group)
+            if rng.random() < 0.75:
+                p['launch'] = {'_pi': pistr(clocked)}
+                if rng.random() < 0.3:
+                    p['launch']['_po'] = ''.join(rng.choice('LHX') for _ in po_group)
+            # else: a capture-only pattern inside a launch-on-capture set (TetraMAX emits these, e.g. the chain test)
             p['capture'] = {'_pi': pistr(clocked if rng.random() < 0.8 else not clocked), '_po': ''.join(rng.choice('LHX') for _ in po_group)}
         pats.append(p)
     return {'net': net, 'chains': chain_desc, 'style': style, 'pi_group': pi_group, 'po_group': po_group, 'patterns': pats, 'rseed': rng.randrange(1 << 30)}
@@ -240,8 +242,10 @@ def expectations(case, b):
     if case['style'] == 'loc':
         loc = [[2] * npat for _ in range(nrow)]
         for pi_, p in enumerate(case['patterns']):
-            lpi = p['launch']['_pi']
             cpi = p['capture']['_pi']
+            lpi = p['launch']['_pi'] if 'launch' in p else cpi      # without a launch call the initialisation comes from the capture call
+            if 'launch' not in p:
+                stats['loc_capture_only'] = stats.get('loc_capture_only', 0) + 1
             init = {}
             for j, s in enumerate(case['pi_group']):
                 init[s] = CH[lpi[j]]
@@ -249,7 +253,7 @@ def expectations(case, b):
                 init[ff['name']] = loaded[pi_][ff['name']]
             val = G.eval_net_mv(net, {k: [v] for k, v in init.items()}, 1)
             nxt = {ff['name']: val[ff['d']][0] for ff in net['ffs']}
-            clocked = 'P' in lpi and 'P' in cpi
+            clocked = 'launch' in p and 'P' in lpi and 'P' in cpi
             for ff in net['ffs']:
                 a = init[ff['name']]
                 f = nxt[ff['name']] if clocked else a
@@ -311,7 +315,7 @@ def check_case(ctx, case, idx):
         ok = cmp('tests', sf.tests(b.c), tests, skip_t, 'cells_compared_tests')
         ok = ok and cmp('responses', sf.responses(b.c), resp, set(), 'cells_compared_responses')
         if ok and loc is not None:
-            clk = sum(1 for p in case['patterns'] if 'P' in p['launch']['_pi'] and 'P' in p['capture']['_pi'])
+            clk = sum(1 for p in case['patterns'] if 'launch' in p and 'P' in p['launch']['_pi'] and 'P' in p['capture']['_pi'])
             ctx.count('loc_with_clock', clk)
             ctx.count('loc_without_clock', len(case['patterns']) - clk)
             cmp('tests_loc', sf.tests_loc(b.c), loc, skip_l, 'cells_compared_loc')
